@@ -59,6 +59,10 @@ def run(pid, tier, seed):
             ginfo = {g["id"]: g for g in pg.groups}
             # entries of a group (parents, the field type itself) inherit the field type's items for known-finding tags:
             # `as = "F"` and container-level `as` carry F only as a string
+            for eid, it, args in pg.g.entries:
+                for a in args:
+                    for u in a.users():
+                        items.setdefault(eid + "@arg" + u.id, u)
             for g in pg.groups:
                 tgt = items.get(g["target"])
                 for mid in list(g["members"].values()) + ["F:" + g["id"]]:
@@ -133,6 +137,9 @@ def ktags_of(items, entry_id):
     for key in (entry_id.split("#")[0], entry_id + "@target", entry_id.split("#")[0] + "@target"):
         it = items.get(key)
         if it is not None:
+            out |= {"dep:" + t for t in dep_ktags(it)}
+    for key, it in items.items():
+        if key.startswith(entry_id + "@arg"):
             out |= {"dep:" + t for t in dep_ktags(it)}
     return sorted(out)
 
